@@ -78,7 +78,8 @@ Print Assumptions C07_refuted_neg_len.
 (* at most 30 parser invocations per character of the input, plus 24: every string, accepted or not.
    This bounds TIME.  It says nothing about the goroutine STACK, which the Go parser uses in proportion
    to the nesting depth: finding sig_parse_stack_unbounded (a 2 MB signature of nested "[" overflows the
-   1 GB stack limit) lives outside this statement and is witnessed by the harness on every run. *)
+   1 GB stack limit); the nesting depth is bounded and refuted below (C07_parse_depth_bound,
+   C07_refuted_parse_depth_constant) and the finding is witnessed by the harness on every run. *)
 Theorem C07_parse_merged_linear : forall s, parse_steps_m s <= 30 * N.of_nat (String.length s) + 24.
 Proof. exact parse_steps_m_linear. Qed.
 Print Assumptions C07_parse_merged_linear.
